@@ -150,9 +150,9 @@ def excel_rows(source_path, sheet=1):
                 for x in range(sheet_to_read.ncols):
                     try:
                         row.append(_excel_cell_value(sheet_to_read.cell(y, x), datemode))
-                    except xlrd.XLDateError as error:
+                    except (xlrd.XLDateError, ValueError, OverflowError) as error:
                         # A cell formatted as date or time holds a number Excel cannot show as date, for example
-                        # a negative one or (with the 1900 based date mode) one before 1900-03-01.
+                        # a negative one, (with the 1900 based date mode) one before 1900-03-01 or a NaN or infinity.
                         raise errors.DataFormatError(
                             "cannot convert Excel cell to date or time: %s: %s" % (error.__class__.__name__, error), location
                         )
